@@ -31,6 +31,9 @@ func Open(filename, password string) (*DB, error) {
 		return nil, fmt.Errorf("error creating sqlite connector: %w", err)
 	}
 	db := sql.OpenDB(connector)
+	// A single connection, as documented: concurrent requests queue for it
+	// instead of failing with "database is locked" on a second connection
+	db.SetMaxOpenConns(1)
 	if err := Init(db); err != nil {
 		return nil, err
 	}
